@@ -165,61 +165,8 @@ Proof.
 Qed.
 
 (* ---- the whole level ---- *)
-Definition ids_of (name : bytes) : list nat :=
-  match find (fun nf : bytes * list nat => bytes_eqb (fst nf) name) (lv_files lv) with
-  | Some nf => snd nf
-  | None => []
-  end.
-
-Lemma find_name : forall (files : list (bytes * list nat)) name ids,
-  NoDup (map fst files) -> In (name, ids) files ->
-  find (fun nf : bytes * list nat => bytes_eqb (fst nf) name) files = Some (name, ids).
-Proof.
-  induction files as [|[nm0 ids0] files IH]; intros name ids Hnd Hin; [destruct Hin|].
-  cbn [map fst] in Hnd. apply NoDup_cons_iff in Hnd. destruct Hnd as [Hn0 Hnd].
-  cbn [find fst]. destruct (bytes_eqb nm0 name) eqn:E.
-  - apply bytes_eqb_true in E. subst nm0. destruct Hin as [Hin|Hin]; [exact (f_equal Some Hin)|].
-    exfalso. apply Hn0. apply (in_map fst) in Hin. exact Hin.
-  - destruct Hin as [Hin|Hin]; [injection Hin as -> ->; rewrite bytes_eqb_refl in E; discriminate|].
-    apply IH; assumption.
-Qed.
-
-Lemma ids_of_in name ids : In (name, ids) (lv_files lv) -> ids_of name = ids.
-Proof.
-  intros Hin. unfold ids_of. destruct (wf_level_parts lv Hwf) as (Hd & _ & _).
-  rewrite (find_name _ name ids (distinct_names_NoDup _ Hd) Hin). reflexivity.
-Qed.
-
-Lemma ids_of_spec name i : In i (ids_of name) <-> (i < n)%nat /\ fst (loc_of lv i) = name.
-Proof.
-  unfold ids_of. destruct (find (fun nf : bytes * list nat => bytes_eqb (fst nf) name) (lv_files lv)) as [[nm ids]|] eqn:E.
-  - apply find_some in E. destruct E as [Hin E]. cbn [fst] in E. apply bytes_eqb_true in E. subst nm. cbn [snd].
-    pose proof (filter_file_perm lv Hwf name ids Hin) as HP. split.
-    + intros Hi. apply (Permutation_in _ (Permutation_sym HP)) in Hi. apply filter_In in Hi. destruct Hi as [Hi He].
-      apply in_seq in Hi. apply bytes_eqb_true in He. fold n in Hi. split; [lia | exact He].
-    + intros [Hi He]. apply (Permutation_in _ HP). apply filter_In. split; [apply in_seq; fold n; lia|].
-      rewrite He. apply bytes_eqb_refl.
-  - split; [intros []|]. intros [Hi He]. exfalso.
-    destruct (locate_total lv i Hwf Hi) as [cc Hloc]. unfold loc_of in He. rewrite Hloc in He.
-    destruct (locate_in lv i _ _ Hloc) as (ids & _ & Hin & _). rewrite He in Hin.
-    apply (find_none _ _ E) in Hin. cbn [fst] in Hin. rewrite bytes_eqb_refl in Hin. discriminate.
-Qed.
-
-Lemma ids_of_nodup name : NoDup (ids_of name).
-Proof.
-  unfold ids_of. destruct (find (fun nf : bytes * list nat => bytes_eqb (fst nf) name) (lv_files lv)) as [[nm ids]|] eqn:E; [|constructor].
-  apply find_some in E. destruct E as [Hin _]. cbn [snd]. exact (file_ids_NoDup lv Hwf nm ids Hin).
-Qed.
-
-Lemma locate_name_indep (l1 l2 : level) b : forall files,
-  option_map fst (locate l1 files b) = option_map fst (locate l2 files b).
-Proof.
-  induction files as [|[nm ids] files IH]; [reflexivity|]. cbn [locate].
-  destruct (pos_in b ids 0); [reflexivity | exact IH].
-Qed.
-
 Lemma cooked_loc i : (i < n)%nat ->
-  loc_of cooked_lv i = (fst (loc_of lv i), fab_offset (file_fabs cooked_lv (ids_of (fst (loc_of lv i)))) (posn (ids_of (fst (loc_of lv i))) i)).
+  loc_of cooked_lv i = (fst (loc_of lv i), fab_offset (file_fabs cooked_lv (ids_of lv (fst (loc_of lv i)))) (posn (ids_of lv (fst (loc_of lv i))) i)).
 Proof.
   intros Hi.
   destruct (locate_total lv i Hwf Hi) as [c1 H1].
@@ -230,21 +177,21 @@ Proof.
   assert (Hf1 : fst (loc_of lv i) = fst c1) by (unfold loc_of; rewrite H1; reflexivity).
   destruct (locate_in lv i _ _ H1) as (ids & _ & Hin & _).
   assert (Hf2 : fst (loc_of cooked_lv i) = fst c1) by (unfold loc_of; cbn [cooked_lv lv_files]; rewrite H2; symmetry; exact Hn).
-  rewrite Hf1, (ids_of_in _ ids Hin).
+  rewrite Hf1, (ids_of_in lv Hwf _ ids Hin).
   destruct (loc_in_file cooked_lv wf_cooked (fst c1) ids i Hin Hi' Hf2) as (_ & _ & Hoff).
   rewrite (surjective_pairing (loc_of cooked_lv i)), Hf2, Hoff. reflexivity.
 Qed.
 
 Definition comps_of (i : nat) : list bytes := map (fab_comp (fabi i)) keep ++ new_of i.
 Definition result_of (name : bytes) : bytes * bytes * list nat * list (Z * list bytes * list bytes) :=
-  (name, encode_file (file_fabs cooked_lv (ids_of name)), ids_of name, recs_of (ids_of name)).
+  (name, encode_file (file_fabs cooked_lv (ids_of lv name)), ids_of lv name, recs_of (ids_of lv name)).
 
 Lemma recs_length ids : length (recs_of ids) = length ids.
 Proof. unfold recs_of. rewrite map_length, seq_length. reflexivity. Qed.
 
 Theorem cook_level_spec :
   cook_level recipe k (lv_disk lv) c keep nout
-  = Some (map (fun name => (name, encode_file (file_fabs cooked_lv (ids_of name)))) (np_unique (map fst cells)),
+  = Some (map (fun name => (name, encode_file (file_fabs cooked_lv (ids_of lv name)))) (np_unique (map fst cells)),
           map snd (cells_or_nil cooked_lv),
           map (fun i => map comp_min (comps_of i)) (seq 0 n),
           map (fun i => map comp_max (comps_of i)) (seq 0 n)).
@@ -258,7 +205,7 @@ Proof.
       rewrite (scan_one_file name ids Hin). cbn [obind fst snd].
       rewrite recs_length, Nat.eqb_refl. cbn [obind].
       replace (forallb _ (recs_of ids)) with true.
-      - cbn [obind]. unfold result_of. rewrite (ids_of_in name ids Hin). reflexivity.
+      - cbn [obind]. unfold result_of. rewrite (ids_of_in lv Hwf name ids Hin). reflexivity.
       - symmetry. apply forallb_forall. intros b Hb. unfold recs_of in Hb. apply in_map_iff in Hb.
         destruct Hb as (j & <- & Hj). apply in_seq in Hj. cbn [fst snd].
         assert (Hlt : (nth j ids 0%nat < n)%nat).
@@ -272,13 +219,13 @@ Proof.
   - rewrite map_map. reflexivity.
   - (* offsets *)
     rewrite fold_left_map. cbn [result_of fst snd].
-    rewrite (fold_left_ext _ (fun a name => scatter_rows (ids_of name) (map (fun b : Z * list bytes * list bytes => fst (fst b)) (recs_of (ids_of name))) a)
+    rewrite (fold_left_ext _ (fun a name => scatter_rows (ids_of lv name) (map (fun b : Z * list bytes * list bytes => fst (fst b)) (recs_of (ids_of lv name))) a)
                (fun a name => scatter_is_rows _ _ a)).
     rewrite (proj2 (cells_or_nil_spec cooked_lv wf_cooked)), cooked_length, map_map.
     apply (nth_ext _ _ 0 0).
     + rewrite fold_scatter_rows_length, repeat_length, map_length, seq_length. reflexivity.
     + intros i Hi. rewrite fold_scatter_rows_length, repeat_length in Hi.
-      rewrite (fold_scatter_rows 0 n (fun i => fst (loc_of lv i)) ids_of _ ids_of_spec ids_of_nodup) ;
+      rewrite (fold_scatter_rows 0 n (fun i => fst (loc_of lv i)) (ids_of lv) _ (ids_of_spec lv Hwf) (ids_of_nodup lv Hwf)) ;
         [| intros name; rewrite map_length; apply recs_length | exact Hi | apply np_unique_NoDup | apply repeat_length].
       replace (existsb (bytes_eqb (fst (loc_of lv i))) (np_unique (map fst cells))) with true.
       2:{ symmetry. apply existsb_exists. exists (fst (loc_of lv i)). split; [|apply bytes_eqb_refl].
@@ -286,8 +233,8 @@ Proof.
       rewrite (nth_indep (map (fun x => snd (loc_of cooked_lv x)) (seq 0 n)) 0 (snd (loc_of cooked_lv 0%nat))) by (rewrite map_length, seq_length; exact Hi).
       rewrite (map_nth (fun x => snd (loc_of cooked_lv x))), seq_nth by exact Hi. cbn [Nat.add].
       rewrite (cooked_loc i Hi). cbn [snd].
-      set (ids := ids_of (fst (loc_of lv i))).
-      assert (Hin : In i ids) by (apply ids_of_spec; split; [exact Hi | reflexivity]).
+      set (ids := ids_of lv (fst (loc_of lv i))).
+      assert (Hin : In i ids) by (apply (ids_of_spec lv Hwf); split; [exact Hi | reflexivity]).
       destruct (pos_in_complete i _ 0%nat Hin) as [kk Hk]. destruct (pos_in_spec _ _ _ Hk) as [Hnth Hkl].
       unfold posn. rewrite Hk. unfold recs_of. rewrite map_map. cbn [fst].
       rewrite (nth_indep _ 0 (fab_offset (file_fabs cooked_lv ids) 0%nat)) by (rewrite map_length, seq_length; exact Hkl).
@@ -297,15 +244,15 @@ Proof.
     apply (nth_ext _ _ [] []).
     + rewrite fold_scatter_rows_length, repeat_length, map_length, seq_length. reflexivity.
     + intros i Hi. rewrite fold_scatter_rows_length, repeat_length in Hi.
-      rewrite (fold_scatter_rows [] n (fun i => fst (loc_of lv i)) ids_of _ ids_of_spec ids_of_nodup) ;
+      rewrite (fold_scatter_rows [] n (fun i => fst (loc_of lv i)) (ids_of lv) _ (ids_of_spec lv Hwf) (ids_of_nodup lv Hwf)) ;
         [| intros name; rewrite map_length; apply recs_length | exact Hi | apply np_unique_NoDup | apply repeat_length].
       replace (existsb (bytes_eqb (fst (loc_of lv i))) (np_unique (map fst cells))) with true.
       2:{ symmetry. apply existsb_exists. exists (fst (loc_of lv i)). split; [|apply bytes_eqb_refl].
           apply np_unique_In. unfold cells. rewrite (names_eq lv Hwf). apply in_map_iff. exists i. split; [reflexivity | apply in_seq; fold n; lia]. }
       rewrite (nth_indep (map (fun x => map comp_min (comps_of x)) (seq 0 n)) [] (map comp_min (comps_of 0%nat))) by (rewrite map_length, seq_length; exact Hi).
       rewrite (map_nth (fun x => map comp_min (comps_of x))), seq_nth by exact Hi. cbn [Nat.add].
-      set (ids := ids_of (fst (loc_of lv i))).
-      assert (Hin : In i ids) by (apply ids_of_spec; split; [exact Hi | reflexivity]).
+      set (ids := ids_of lv (fst (loc_of lv i))).
+      assert (Hin : In i ids) by (apply (ids_of_spec lv Hwf); split; [exact Hi | reflexivity]).
       destruct (pos_in_complete i _ 0%nat Hin) as [kk Hk]. destruct (pos_in_spec _ _ _ Hk) as [Hnth Hkl].
       unfold posn. rewrite Hk. unfold recs_of. rewrite map_map. cbn [fst snd].
       unfold comps_of.
@@ -317,15 +264,15 @@ Proof.
     apply (nth_ext _ _ [] []).
     + rewrite fold_scatter_rows_length, repeat_length, map_length, seq_length. reflexivity.
     + intros i Hi. rewrite fold_scatter_rows_length, repeat_length in Hi.
-      rewrite (fold_scatter_rows [] n (fun i => fst (loc_of lv i)) ids_of _ ids_of_spec ids_of_nodup) ;
+      rewrite (fold_scatter_rows [] n (fun i => fst (loc_of lv i)) (ids_of lv) _ (ids_of_spec lv Hwf) (ids_of_nodup lv Hwf)) ;
         [| intros name; rewrite map_length; apply recs_length | exact Hi | apply np_unique_NoDup | apply repeat_length].
       replace (existsb (bytes_eqb (fst (loc_of lv i))) (np_unique (map fst cells))) with true.
       2:{ symmetry. apply existsb_exists. exists (fst (loc_of lv i)). split; [|apply bytes_eqb_refl].
           apply np_unique_In. unfold cells. rewrite (names_eq lv Hwf). apply in_map_iff. exists i. split; [reflexivity | apply in_seq; fold n; lia]. }
       rewrite (nth_indep (map (fun x => map comp_max (comps_of x)) (seq 0 n)) [] (map comp_max (comps_of 0%nat))) by (rewrite map_length, seq_length; exact Hi).
       rewrite (map_nth (fun x => map comp_max (comps_of x))), seq_nth by exact Hi. cbn [Nat.add].
-      set (ids := ids_of (fst (loc_of lv i))).
-      assert (Hin : In i ids) by (apply ids_of_spec; split; [exact Hi | reflexivity]).
+      set (ids := ids_of lv (fst (loc_of lv i))).
+      assert (Hin : In i ids) by (apply (ids_of_spec lv Hwf); split; [exact Hi | reflexivity]).
       destruct (pos_in_complete i _ 0%nat Hin) as [kk Hk]. destruct (pos_in_spec _ _ _ Hk) as [Hnth Hkl].
       unfold posn. rewrite Hk. unfold recs_of. rewrite map_map. cbn [fst snd].
       unfold comps_of.
